@@ -225,3 +225,21 @@ Proof.
   split; [vm_compute; reflexivity|]. eexists _, _, _, _, _.
   split; [vm_compute; reflexivity|]. split; [vm_compute; reflexivity|]. split; [vm_compute; reflexivity|]. split; reflexivity.
 Qed.
+
+(* rep 0 does not need its callee: `; / rep(0, i) nosuch i` expands (to the one op) and inlines to the one statement,
+   while `rep(1, i) nosuch i` is rejected (macro not defined) and has no inlining.  (The model returns before
+   prepare_macro_call when the count is 0; C03_rep_zero has no hypothesis about the callee.) *)
+Definition rep_undefined_tree (n : Z) : macro_dict :=
+ [(("", 0%N), mkmacro [] [] [SFlipJump (EInt 0%Z) (ELbl "$") (mkpos "t.fj" "f1" 1%N);
+                              SRepCall (EInt n) "i" "nosuch" [ELbl "i"] (mkpos "t.fj" "f1" 2%N)] "" (mkpos "t.fj" "f1" 1%N))].
+
+Example C03_rep_zero_undefined_callee :
+  wf_tree (rep_undefined_tree 0) = true /\
+  (exists lbls, resolve_macros 64 (rep_undefined_tree 0) 900 = ROk ([LNewSegment 0 128; LFlipJump (EInt 0%Z) (EInt 128%Z)], lbls)) /\
+  (exists s, inline impl_fresh (rep_undefined_tree 0) (N.to_nat 900) = Some [s]) /\
+  resolve_macros 64 (rep_undefined_tree 1) 900 = RErr (PreUnknownMacro ("nosuch", 1%N)) /\
+  inline impl_fresh (rep_undefined_tree 1) (N.to_nat 900) = None.
+Proof.
+  split; [vm_compute; reflexivity|]. split; [eexists; vm_compute; reflexivity|]. split; [eexists; vm_compute; reflexivity|].
+  split; vm_compute; reflexivity.
+Qed.
